@@ -84,7 +84,8 @@ def coq_sources():
     out = []
     for p in sorted(glob.glob(os.path.join(COQ, "**", "*.v"), recursive=True)):
         rel = os.path.relpath(p, COQ)
-        if rel.startswith("gen/cases_") or rel.startswith("scratch/"):
+        base = os.path.basename(rel)
+        if rel.startswith("gen/cases_") or rel.startswith("scratch/") or "scratch" in base or base.startswith("zz_") or base.startswith("tmp"):
             continue
         out.append(rel)
     return out
@@ -111,6 +112,15 @@ def coq_build(targets=None, timeout=3000, keep_going=False):
         coq_project()
         tg = " ".join(t[:-2] + ".vo" for t in targets) if targets else ""
         rc, out = sh("timeout %d make %s -j%d %s" % (timeout, "-k" if keep_going else "", NPROC, tg), cwd=COQ, timeout=timeout + 30)
+        if rc != 0 and ("No such file or directory" in out or ".Makefile.d" in out):
+            # the file list changed under us (a source file appeared/disappeared): regenerate and retry once
+            for f in ("_CoqProject", ".Makefile.d"):
+                try:
+                    os.remove(os.path.join(COQ, f))
+                except OSError:
+                    pass
+            coq_project()
+            rc, out = sh("timeout %d make %s -j%d %s" % (timeout, "-k" if keep_going else "", NPROC, tg), cwd=COQ, timeout=timeout + 30)
     if rc == 0:
         return True, None, out
     m = re.search(r'File "\./([^"]+)", line (\d+)', out)
